@@ -11,6 +11,8 @@ import (
 	"github.com/goblimey/go-ntrip/jsonconfig"
 	rtcm "github.com/goblimey/go-ntrip/rtcm/handler"
 	"github.com/goblimey/go-ntrip/rtcm/utils"
+
+	"github.com/goblimey/go-ntrip/verifhook"
 )
 
 type AppCore struct {
@@ -92,8 +94,10 @@ func (appCore *AppCore) HandleMessagesUntilEOF(startTime time.Time, reader *bufi
 
 	// Fetch the messages and send them to the processing channels.
 	for {
+		verifhook.At("fanout.recv")
 		message, more := <-messageChan
 		if !more {
+			verifhook.At("fanout.return")
 			break
 		}
 
@@ -104,6 +108,7 @@ func (appCore *AppCore) HandleMessagesUntilEOF(startTime time.Time, reader *bufi
 		}
 		for i := range appCore.Channels {
 			if appCore.Channels[i] != nil {
+				verifhook.At("fanout.send", i)
 				appCore.Channels[i] <- message
 			}
 		}
